@@ -258,6 +258,7 @@ func Open(path string, mode os.FileMode, options *Options) (db *DB, err error) {
 
 	// Default values for test hooks
 	db.ops.writeAt = db.file.WriteAt
+	verifWrapOps(db)
 
 	if db.pageSize = options.PageSize; db.pageSize == 0 {
 		// Set the default page size to the OS page size.
@@ -454,6 +455,9 @@ func (db *DB) fileSize() (int, error) {
 // mmap opens the underlying memory-mapped file and initializes the meta references.
 // minsz is the minimum size that the new mmap can be.
 func (db *DB) mmap(minsz int) (err error) {
+	if err = verifEvent(db, verifOpRemapEnter, 0, minsz, nil); err != nil {
+		return err
+	}
 	db.mmaplock.Lock()
 	defer db.mmaplock.Unlock()
 
@@ -513,6 +517,9 @@ func (db *DB) mmap(minsz int) (err error) {
 	// Memory-map the data file as a byte slice.
 	// gofail: var mapError string
 	// return errors.New(mapError)
+	if err = verifEvent(db, verifOpMmap, 0, size, nil); err != nil {
+		return err
+	}
 	if err = mmap(db, size); err != nil {
 		lg.Errorf("[GOOS: %s, GOARCH: %s] mmap failed, size: %d, error: %v", runtime.GOOS, runtime.GOARCH, size, err)
 		return err
@@ -1240,10 +1247,16 @@ func (db *DB) grow(sz int) error {
 		if runtime.GOOS != "windows" {
 			// gofail: var resizeFileError string
 			// return errors.New(resizeFileError)
+			if err := verifEvent(db, verifOpTruncate, 0, sz, nil); err != nil {
+				return fmt.Errorf("file resize error: %s", err)
+			}
 			if err := db.file.Truncate(int64(sz)); err != nil {
 				lg.Errorf("[GOOS: %s, GOARCH: %s] truncating file failed, size: %d, db.datasz: %d, error: %v", runtime.GOOS, runtime.GOARCH, sz, db.datasz, err)
 				return fmt.Errorf("file resize error: %s", err)
 			}
+		}
+		if err := verifEvent(db, verifOpGrowSync, 0, 0, nil); err != nil {
+			return fmt.Errorf("file sync error: %s", err)
 		}
 		if err := db.file.Sync(); err != nil {
 			lg.Errorf("[GOOS: %s, GOARCH: %s] syncing file failed, db.datasz: %d, error: %v", runtime.GOOS, runtime.GOARCH, db.datasz, err)
